@@ -115,12 +115,53 @@ def r_strip_qual(sig, body, arg):
     return sig, body, 1
 
 
+def r_div_mod_floor(sig, body, arg):
+    """R5: `RECV.div_mod_floor(&D)` -> `div_mod_floor(RECV, D)`; RECV is an identifier or a
+    parenthesised expression without nested parentheses."""
+    body, n = _sub(r"(\b\w+|\([^()]*\))\.div_mod_floor\(&(\w+)\)", r"div_mod_floor(\1, \2)", body)
+    return sig, body, n
+
+
+def r_iter_skip_loop(sig, body, arg):
+    """R4/R4b: `for &B in X.iter().skip(E) {` -> `for vx_i in (E)..X.len() { let B = X[vx_i];`"""
+    def find_close(s, i):
+        depth = 0
+        for k in range(i, len(s)):
+            if s[k] == "(":
+                depth += 1
+            elif s[k] == ")":
+                depth -= 1
+                if depth == 0:
+                    return k
+        return -1
+    n = 0
+    pat = re.compile(r"for\s+&(\w+)\s+in\s+(\w+)\.iter\(\)\.skip\(")
+    while True:
+        m = pat.search(body)
+        if not m:
+            break
+        o = m.end() - 1
+        c = find_close(body, o)
+        rest = body[c + 1:]
+        mm = re.match(r"\s*\{", rest)
+        if c < 0 or not mm:
+            break
+        e = body[o + 1:c]
+        b, xs = m.group(1), m.group(2)
+        body = (body[:m.start()] + "for vx_i in (%s)..%s.len() { let %s = %s[vx_i];" % (e, xs, b, xs)
+                + rest[mm.end():])
+        n += 1
+    return sig, body, n
+
+
 RULES = {
     "Self": r_self,
     "Generic": r_generic,
     "BoolAssign": r_bool_assign,
     "ForUnderscore": r_for_underscore,
     "BitVecIndex": r_bitvec_index,
+    "DivModFloor": r_div_mod_floor,
+    "IterSkipLoop": r_iter_skip_loop,
 }
 RULE_IDS = {"Self": "R1", "Generic": "R1", "BoolAssign": "R2", "ForUnderscore": "R3",
             "BitVecIndex": "R6"}
